@@ -557,6 +557,9 @@ def field_reads_in(fn, field):
 # event graphs (P5)
 # ----------------------------------------------------------------------------------------------
 
+_STD_VARIANT = {("std::result::Result", "Ok"): 0, ("std::result::Result", "Err"): 1, ("std::option::Option", "None"): 0, ("std::option::Option", "Some"): 1}
+
+
 class EventGraph:
     """nodes: 'ENTRY', ('ev', bb, role), ('ret', value-desc); edges: (src, label, dst)"""
 
@@ -644,6 +647,18 @@ def event_graph(fn, role_of, ret_local=0, max_states=40000, branch_role=None, st
                     kb = frozenset(x for x in kb if x[0] != ll)
                 if fn.local_name(ll) is None and fn.local_ty(ll) == "bool" and s.rv.k == "use" and s.rv.ops[0].kind == "const" and isinstance(s.rv.ops[0].const_value(), bool) and ll not in mut_borrowed(fn):
                     kb = kb | {(ll, s.rv.ops[0].const_value())}
+                # an enum value built from a literal variant: a later `discriminant(x)` on the same path is known
+                elif s.rv.k == "agg" and s.rv.j.get("ak") == "adt" and _STD_VARIANT.get((s.rv.j.get("adt"), s.rv.j.get("variant"))) is not None and ll not in mut_borrowed(fn):
+                    kb = kb | {(ll, ("variant", _STD_VARIANT[(s.rv.j.get("adt"), s.rv.j.get("variant"))]))}
+                elif s.rv.k == "discr" and s.rv.place is not None and s.rv.place.is_local():
+                    for kl, kv in kb:
+                        if kl == s.rv.place.local and isinstance(kv, tuple) and kv[0] == "variant":
+                            kb = kb | {(ll, ("int", kv[1]))}
+                elif s.rv.k == "use" and s.rv.ops and s.rv.ops[0].place is not None and s.rv.ops[0].place.is_local():
+                    # moves keep the knowledge
+                    for kl, kv in kb:
+                        if kl == s.rv.ops[0].place.local and isinstance(kv, tuple):
+                            kb = kb | {(ll, kv)}
             if decided and s.lhs is not None and not (s.rv.k == "discr"):
                 decided = frozenset(x for x in decided if x[0][1] != s.lhs.local)
             if s.lhs.is_local():
@@ -714,7 +729,13 @@ def event_graph(fn, role_of, ret_local=0, max_states=40000, branch_role=None, st
                 for kl, kv in kb:
                     if kl == t.discr.place.local:
                         known = kv
-            if known is not None and not on_result:
+            if isinstance(known, tuple) and known[0] == "int" and not on_result:
+                edges_ = switch_edges(fn, bb)
+                exact = [tgt for lab, tgt in edges_ if lab == known[1]]
+                for tgt in (exact or [tgt for lab, tgt in edges_ if lab == "else"]):
+                    work.append((tgt, (src, frozenset(aliases), label, retv, decided, kb)))
+                continue
+            if isinstance(known, bool) and not on_result:
                 for lab, tgt in switch_edges(fn, bb):
                     if (lab == 0) == (known is False) and (lab == 0 or lab == "else"):
                         work.append((tgt, (src, frozenset(aliases), label, retv, decided, kb)))
